@@ -31,7 +31,7 @@ def explore(ctx, for_c16=False):
             case = cases[o["idx"]]
             if "skip" in o:
                 skipped += 1
-                if "harness" in o["skip"]:
+                if o["skip"].startswith("harness"):
                     raise MachineryError(f"[{v}] {describe(case)}: {o['skip']}")
                 continue
             ctx.replays += 1
